@@ -306,7 +306,8 @@ def _exhaustive_shard(run, base, nops, first_ops):
 # random programs and custom tables
 
 NEW_SYMBOLS = [':', '::', '~', '^', '%', '&', '|', '<>', '**', '//', '!', '@',
-               'xor', 'div', 'implies']
+               'xor', 'div', 'implies', '#', '#>', ';', '?', '??', '\\',
+               '=#', '+-', 'is', 'like']
 
 
 @st.composite
@@ -429,7 +430,36 @@ def _random_shard(run, n, shard):
             lambda c: check_program(run, c), n, shard=shard)
 
 
+@st.composite
+def table_pairs(draw):
+    """two tables holding the same operator records in different places"""
+    a = draw(table_specs())
+    if not a['inserts']:
+        return [a]
+    f = common.make_factory(a['base'])
+    ops = [tuple(r) for r in f.operators]
+    inserts = []
+    for ins in a['inserts']:
+        t = P.Table(ops)
+        kind_bin = ins[3] in (OT.BINARY_LEFT_ASSOCIATIVE,
+                              OT.BINARY_RIGHT_ASSOCIATIVE)
+        anchors = [(s_, True) for s_ in t.binary if s_ not in ('[]', '{}')
+                   and t.binary[s_][0] > 2]
+        anchor = draw(st.one_of(st.none(), st.sampled_from(anchors)))
+        new_ins = [anchor[0] if anchor else None,
+                   anchor[1] if anchor else None, ins[2], ins[3], True,
+                   ins[5]]
+        f.insert_operator(*new_ins)
+        ops = [tuple(r) for r in f.operators]
+        inserts.append(new_ins)
+    return [a, {'base': a['base'], 'inserts': inserts}]
+
+
 def _custom_shard(run, ntables, nprog, shard):
+    run.hyp('table-pairs', table_pairs().flatmap(
+        lambda specs: st.tuples(*[programs(sp) for sp in specs + specs[:1]])),
+        lambda cs: [check_program(run, c) for c in cs],
+        max(ntables // 2, 4), shard=shard)
     run.hyp('custom-tables', table_specs().flatmap(
         lambda spec: st.tuples(*[programs(spec) for _ in range(3)])),
         lambda cs: [check_program(run, c) for c in cs],
